@@ -169,12 +169,13 @@ Definition line_filter_clause (op : lfop) (val : string) (re_lit : option (strin
   end.
 
 (* ---------- ParserPlanner (json with parameters) ---------- *)
+(* since the repair json-path-alias the whole path is printed in each of the three calls (`'a','b' as jp_1` named only the
+   last argument, so the two extractions read the top-level key 'b'); no id is drawn any more *)
 Definition json_path_sql (path : list string) : expr :=
-  WithId (fun id =>
-    let jp := Id ("jp_" ++ string_of_N id) in
-    Fn "if" [Sep " == " [Fn "JSONType" [Id "string"; Sep " as " [Sep "," (map StrV path); jp]]; StrV "String"];
-             Fn "JSONExtractString" [Id "string"; jp];
-             Fn "JSONExtractRaw" [Id "string"; jp]]).
+  let p := Sep "," (map StrV path) in
+  Fn "if" [Sep " == " [Fn "JSONType" [Id "string"; p]; StrV "String"];
+           Fn "JSONExtractString" [Id "string"; p];
+           Fn "JSONExtractRaw" [Id "string"; p]].
 Definition sql_json_parser (labels : list string) (paths : list (list string)) : expr :=
   Sep "" [Raw "mapFilter((k,v) -> v != '', mapFromArrays(["; Sep "," (map StrV labels); Raw "], ["; Sep "," (map json_path_sql paths); Raw "]))"].
 Fixpoint all_paths (ps : list parser_param) : option (list (list string)) :=
